@@ -151,6 +151,14 @@ def run(pid, tier, seed):
         coverage["rule"] += " The get_ constructors of types, names and atoms are covered by IprUnify behaviours whose read-back " \
                             "(operands, qualifiers, spelling, transfer) is compared per call."
         violations += u["violations"]
+        # declarations made through a scope report what they were declared with, redeclarations included (IprScopes)
+        import p_scopes
+        sc = p_scopes.run("C02", tier, seed)
+        scc = sc["coverage"]
+        for k in ("states", "transitions", "traces_validated_against_impl", "evaluations"):
+            coverage[k] += scc[k]
+        coverage["scope_declarations"] = {"jobs": scc["jobs"]}
+        violations += sc["violations"]
     if pid == "C09":
         # unified nodes have prescribed types as well (symbols, literals, type nodes): IprUnify's `ty` read-back
         import p_unify
